@@ -23,6 +23,7 @@ class Handler(object):
         self.ha = ('127.0.0.1', 7000)
         self.oracle = []
         self.sent = []
+        self.failed = []
         self.k = 0
 
     def reopen(self):
@@ -35,6 +36,7 @@ class Handler(object):
         fail = self.oracle.pop(0) if self.oracle else False
         if fail:
             self.k += 1
+            self.failed.append(ha)
             raise socket.error(ERRNOS[self.k % len(ERRNOS)], "transient")
         self.sent.append((data, ha))
         return len(data)
@@ -46,6 +48,25 @@ class Pkt(object):
         self.i = i
 
 
+# destination ids of the model -> real datagram addresses: several ids share a HOST and differ in the port
+# (a destination is the full address, not the host), one is a unix-domain style path
+ADDR = {10: ("10.0.0.1", 7001), 20: ("10.0.0.1", 7002), 30: ("10.0.0.2", 7001), 40: "/tmp/uxd.40"}
+
+
+def addr_of(d):
+    return ADDR.get(d, ("10.0.1.%d" % (d % 250), 7000 + d))
+
+
+def dest_of(a):
+    for d, x in ADDR.items():
+        if x == a:
+            return d
+    return a[1] - 7000
+
+
+BLOCKED = [None]
+
+
 def run_impl(ops):
     """ops: list of ('enq', id, dest) | ('svc', [bool...]) ; returns (log, queue) as [(id,dest)]"""
     from ioflo.aio.proto import stacking
@@ -54,7 +75,7 @@ def run_impl(ops):
     stack.handler = h
     for op in ops:
         if op[0] == "enq":
-            stack.txPkts.append((Pkt(op[1]), op[2]))
+            stack.txPkts.append((Pkt(op[1]), addr_of(op[2])))
         elif op[0] == "once":
             h.oracle = [bool(op[1])]
             if op[2]:
@@ -64,15 +85,25 @@ def run_impl(ops):
             h.oracle = []
         else:
             h.oracle = list(op[1])
+            h.failed = []
             stack.serviceTxPkts()
-    log = [(int(d), ha) for d, ha in h.sent]
-    q = [(p.i, ha) for p, ha in stack.txPkts]
+            left = [dest_of(ha) for _p, ha in stack.txPkts]
+            bad = [d for d in left if d not in [dest_of(a) for a in h.failed]]
+            if bad and BLOCKED[0] is None:
+                BLOCKED[0] = "after a service pass packets to %r are still queued although no send to them failed in " \
+                             "that pass (failed: %r)" % (sorted(set(bad)), sorted(set(dest_of(a) for a in h.failed)))
+    log = [(int(d), dest_of(ha)) for d, ha in h.sent]
+    q = [(p.i, dest_of(ha)) for p, ha in stack.txPkts]
     return log, q
 
 
 def prop_holds(ops, log, q):
     """the property's statement, executable, on the implementation's observable result"""
     queued = [(op[1], op[2]) for op in ops if op[0] == "enq"]
+    BLOCKED[0] = None
+    run_impl(ops)          # replay to evaluate "a failing destination never blocks another" pass by pass
+    if BLOCKED[0]:
+        return BLOCKED[0]
     if sorted(log + q) != sorted(queued):
         return "sent+queued is not the queued multiset"
     for d in set(ha for _, ha in queued):
